@@ -74,6 +74,10 @@ CHECKS = {
                 technique="bounded-exhaustive enumeration of definition programs compiled by the real compiler; five observers (Python import, gcc probe, node dump, MATLAB-subset interpreter, parser model) reduced to one signature and compared pairwise",
                 text="Field sequences over all 26 native type names, aliases (of natives, of aliases), nested structs of alignment 1/2/4/8 and a nested message x seven length forms (none, literals, constant, constant expressions), as structs and messages, with signals, field-list reuse, auto-inserted padding, constants / string constants / module ids / host ids / reserved ids, split over import shapes: ids, hashes, constants, field names, order, element kinds and widths, array lengths, offsets and sizes agree between all outputs.",
                 note="Trusted: gcc x86-64, node 20, the MATLAB-subset interpreter. Scalar == length-1 array and MATLAB int8 == C char are declared equivalent; JavaScript carries no element widths (names, order, nesting and array lengths are compared)."),
+    "C16": dict(engine="DEFX", level="exploration", ref="DESIGN.md 4/C16",
+                technique="bounded-exhaustive enumeration of definition closures, each compiled twice in separate processes (differential), combined-YAML round trip through the CLI, regenerated-vs-shipped core definitions",
+                text="Closures of the C15 program space, the extra programs and packed C04-style programs are compiled twice in separate processes with different PYTHONHASHSEED, working directory, source and output paths, with the real black: all six outputs byte-identical; the combined YAML is recompiled through the command line and must give the same ids, hashes, sizes, layouts and constants; core_defs.yaml compiled with the current tree must reproduce the shipped core_defs.py (signature and text apart from the version stamps).",
+                note="Known finding (open): combined YAML of closures with cross-file alias-of-struct / struct-uses-message references does not recompile (section order)."),
 }
 
 ALL = [f"C{i:02d}" for i in range(1, 20)]
